@@ -23,6 +23,9 @@ Row(keys, v, isText) ==
       el == IF clash THEN OOS ELSE ExactLast(v, keys)
       ap == IF isText THEN OOS ELSE ApproxRow(v, keys)
   IN [ef |-> ef, el |-> el, ap |-> ap, v2 |-> ValueAt(ef, 2), v3 |-> ValueAt(ef, 3), a2 |-> ValueAt(ap, 2)]
+RowB(keys, v) ==
+  LET ef == ExactFirstB(v, keys) el == ExactLastB(v, keys) ap == ApproxRowB(v, keys)
+  IN [ef |-> ef, el |-> el, ap |-> ap, v2 |-> ValueAt(ef, 2), v3 |-> ValueAt(ef, 3), a2 |-> ValueAt(ap, 2)]
 Init == st = [ph |-> "root"]
 Next == /\ st.ph = "root"
         /\ \/ /\ Kind = "LOOKUP"
@@ -30,6 +33,12 @@ Next == /\ st.ph = "root"
                    /\ st' = [ph |-> "LOOKUP", keys |-> keys]
                    /\ PrintT(ToJson([f |-> "LOOKUP", keys |-> keys, vals |-> ValSeq, asc |-> Ascending(keys),
                                      rows |-> [i \in 1..Len(ValSeq) |-> Row(keys, ValSeq[i], FALSE)]]))
+           \/ /\ Kind = "LOOKUPB"          \* numeric key columns with blank cells (0 = blank), at least one blank
+              /\ \E keys \in Seqs(Keys \cup {0}, L) \ {<<>>} :
+                   /\ \E i \in 1..Len(keys) : keys[i] = 0
+                   /\ st' = [ph |-> "LOOKUPB", keys |-> keys]
+                   /\ PrintT(ToJson([f |-> "LOOKUPB", keys |-> keys, vals |-> ValSeq, asc |-> AscendingB(keys),
+                                     rows |-> [i \in 1..Len(ValSeq) |-> RowB(keys, ValSeq[i])]]))
            \/ /\ Kind = "TEXT"
               /\ \E keys \in Seqs(TextKeys, 3) \ {<<>>} :
                    /\ st' = [ph |-> "TEXT", keys |-> keys]
